@@ -26,6 +26,7 @@ func init() {
 			"(R09.7) every interpreter arm, compiler Go-side arm and frontend arm that stores a guest-provided reference into a table registers the reference's defining instance for keep-alive – on this tree none does: this is the hazard named in the property text, demonstrated against the real code (seeded/C09-baseline) and recorded as eight known findings, one per storing arm. " +
 			"NOT decided: which values actually flow between instances at run time, references held in globals, absence of crashes in general.",
 		Rules: []core.Rule{
+			{ID: "R09.9", Template: "T-MUSTPASS", Text: "linking a funcref global records the exporting instance in the importer (genuine interpreter defect found and fixed)", Min: 1},
 			{ID: "R09.8", Template: "T-CONSULT", Text: "an engine's compiled-module entry, shared by all compilations of one module ID, is deleted only with its last user (genuine defect found and fixed: found independently by four hunts)", Min: 2},
 			{ID: "R09.1", Template: "T-WHOCALLS", Text: "callers of MunmapCodeSegment are registered finalizers; finalizers are only referenced as finalizer arguments", Min: 4},
 			{ID: "R09.2", Template: "T-MUSTPASS", Text: "every mapping site reaches the owner's finalizer registration on all normal paths (interprocedural summaries)", Min: 10},
@@ -37,6 +38,7 @@ func init() {
 		},
 		Run: runC09,
 		Controls: []core.Control{
+			{Name: "funcref-global-import-not-pinned", File: "internal/wasm/store.go", Old: "\t\t\t\tif importedGlobal.Type.ValType == ValueTypeFuncref {\n\t\t\t\t\tm.importedFuncrefGlobalOwners = append(m.importedFuncrefGlobalOwners, importedModule)\n\t\t\t\t}\n", New: "", Rule: "R09.9", Substr: "global"},
 			{Name: "compiled-entry-deleted-by-any-user", File: "internal/engine/wazevo/engine.go", Old: "\t\tif cm.refCount--; cm.refCount > 0 {\n\t\t\treturn\n\t\t}\n", New: "", Rule: "R09.8", Substr: "compiler"},
 			{Name: "delete-unmaps-code", File: "internal/engine/wazevo/engine.go", Old: "\t\tdelete(e.compiledModules, m.ID)\n\t}\n}", New: "\t\tdelete(e.compiledModules, m.ID)\n\t\tif len(cm.executable) > 0 {\n\t\t\t_ = platform.MunmapCodeSegment(cm.executable)\n\t\t}\n\t}\n}", Rule: "R09.1", Substr: "DeleteCompiledModule"},
 			{Name: "finalizer-called-on-close", File: "internal/engine/wazevo/engine.go", Old: "\te.compiledModules = nil\n", New: "\te.compiledModules = nil\n\tsharedFunctionsFinalizer(e.sharedFunctions)\n", Rule: "R09.1", Substr: "called directly"},
@@ -56,6 +58,7 @@ func init() {
 const wzv = "internal/engine/wazevo"
 
 func runC09(c *core.Ctx) {
+	checkFuncrefGlobalImportPinsExporter(c)
 	checkSharedEntriesRefCounted(c)
 	c.SSA()
 	fns := moduleFns(c, wzv)
@@ -783,6 +786,7 @@ type keeperLink struct {
 
 var keeperLinks = []keeperLink{
 	{"internal/wasm", "TableInstance", "involvingModuleInstances", true, "the only collector-visible tie between function references in a shared table and their defining instances"},
+	{"internal/wasm", "ModuleInstance", "importedFuncrefGlobalOwners", true, "the only collector-visible tie between an imported funcref global's value (a raw pointer) and the interpreter instance that defines it"},
 	{"internal/wasm", "GlobalInstance", "Me", false, "an importer reaches the exporter's module engine (value storage, function records) only through the shared global"},
 	{"internal/wasm", "MemoryInstance", "ownerModuleEngine", false, "an importer's code holds the raw address of the owner's module context"},
 	{"internal/wasm", "ModuleInstance", "Engine", false, "function objects and importers reach compiled code through the instance's engine"},
